@@ -7,6 +7,43 @@ Open Scope N_scope.
    dependencies of that type) *)
 Definition obs_step := (op * outcome * list (xds_type * option wr))%type.
 
+(* glue ops: gen_ok = the stub generator returns resources (non-nil); n = nonce of the response
+   that was sent (0 if none); gen = names of the generated resources; eds_ok / ne = the same for
+   the forced EDS push that follows an answered delta CDS request *)
+Inductive eop :=
+| EOp (o : op)
+| EProc (r : req) (gen_ok : bool) (n : N)
+| EDProc (r : dreq) (gen_ok : bool) (n : N) (gen : list N) (eds_ok : bool) (ne : N).
+
+Definition eop_ty (e : eop) : xds_type :=
+  match e with EOp o => op_ty o | EProc r _ _ => r_ty r | EDProc r _ _ _ _ _ => d_ty r end.
+
+Definition answered_b (o : outcome) : bool := match o with Resp true _ => true | _ => false end.
+
+(* pilot/pkg/xds/ads.go processRequest: ShouldRespond, then pushXds on the watch (Generate; nothing is
+   sent when res == nil; xds.Send records the nonce).
+   pilot/pkg/xds/delta.go processDeltaRequest: shouldRespondDelta, pushDeltaXds (sendDelta with
+   newResourceNames for the types shouldSetWatchedResources selects), then forceEDSPush after an
+   answered CDS request when EDS is watched. *)
+Definition estep (st : watched) (e : eop) : outcome * bool * bool * watched :=
+  match e with
+  | EOp o => let '(out, st') := step st o in (out, false, false, st')
+  | EProc r g n =>
+    let '(out, st') := should_respond st r in
+    let sends := answered_b out && g in
+    (out, sends, false, if sends then send st' (r_ty r) n true else st')
+  | EDProc r g n gen ge ne =>
+    let t := d_ty r in
+    let '(out, st') := should_respond_delta st r in
+    if answered_b out then
+      let st1 := if g then send_delta st' t n true (newnames_for t gen) else st' in
+      let forced := ty_eqb t CDS && is_some (st1 EDS) && ge in
+      (out, g, forced, if forced then send_delta st1 EDS ne true (newnames_for EDS []) else st1)
+    else (out, false, false, st')
+  end.
+
+Definition eobs_step := (eop * outcome * bool * bool * list (xds_type * option wr))%type.
+
 Inductive case :=
 (* an op sequence run against the real ShouldRespond / shouldRespondDelta / Send / sendDelta on one
    connection, starting with no watches.  [final] = every watched type at the end (all other
@@ -14,13 +51,19 @@ Inductive case :=
    non-rejected message: the reference client's subscription per type *)
 | Seq (id : N) (steps : list obs_step) (universe : list xds_type)
       (final : list (xds_type * option wr)) (expect : list (xds_type * list N))
+(* end-to-end: the real processRequest / processDeltaRequest on a bare connection with stub
+   generators (plus plain ops for server pushes); per step: the op, (answered?, Subscribed seen by
+   the generator), whether a response of the request's type was sent, whether processDeltaRequest's
+   forced EDS response was sent, and the touched records afterwards *)
+| E2E (id : N) (esteps : list eobs_step) (universe : list xds_type)
+      (final : list (xds_type * option wr)) (expect : list (xds_type * list N))
 (* the per-type tables *)
 | Table (id : N) (t : xds_type) (wildcard_ deps_eds req_mod debug set_watched : bool)
 (* deltaWatchedResources called directly *)
 | Dwr (id : N) (existing : list N) (r : dreq) (res : list N) (wc changed : bool).
 
 Definition case_id c :=
-  match c with Seq id _ _ _ _ => id | Table id _ _ _ _ _ _ => id | Dwr id _ _ _ _ _ => id end.
+  match c with Seq id _ _ _ _ => id | E2E id _ _ _ _ => id | Table id _ _ _ _ _ _ => id | Dwr id _ _ _ _ _ => id end.
 
 Definition outcome_eqb (a b : outcome) : bool :=
   match a, b with
@@ -57,6 +100,23 @@ Definition seq_ok steps universe final : bool :=
   let '(ok, st) := seq_model empty_watched steps in
   ok && forallb (fun t => owr_eqb (st t) (assoc_wr final t)) universe.
 
+Fixpoint eseq_model (st : watched) (steps : list eobs_step) : bool * watched :=
+  match steps with
+  | [] => (true, st)
+  | (e, out, sent, sent_eds, touched) :: rest =>
+    let '(mout, msent, meds, st') := estep st e in
+    if outcome_eqb mout out && Bool.eqb msent sent && Bool.eqb meds sent_eds && touched_ok st' touched then
+      match mout with
+      | Crash => (is_nil rest, st')
+      | _ => eseq_model st' rest
+      end
+    else (false, st')
+  end.
+
+Definition eseq_ok steps universe final : bool :=
+  let '(ok, st) := eseq_model empty_watched steps in
+  ok && forallb (fun t => owr_eqb (st t) (assoc_wr final t)) universe.
+
 (* the observed state, rebuilt from the observations alone *)
 Definition apply_touched (st : watched) (l : list (xds_type * option wr)) : watched :=
   fold_left (fun s '(t, o) => upd s t o) l st.
@@ -69,6 +129,44 @@ Fixpoint rows_hold (st : watched) (steps : list obs_step) : bool :=
     row_ok (st (op_ty o)) o out (st' (op_ty o)) && rows_hold st' rest
   end.
 
+(* end-to-end rows: the request rows on the record as it was before the response was sent, plus:
+   a response is sent exactly when the request is answered and the generator produced one, and its
+   nonce is then the one on record *)
+Definition unsend (pre post : option wr) (ns : option (list N)) : option wr :=
+  match post with
+  | Some w => Some (mkWr (match ns with Some l => l | None => names w end) (wildcard w) (osent pre)
+                         (nonce_acked w) (always_respond w) (last_error w))
+  | None => None
+  end.
+
+Definition erow_ok (pre : option wr) (e : eop) (out : outcome) (sent : bool) (post : option wr) : bool :=
+  match e with
+  | EOp o => row_ok pre o out post
+  | EProc r g n =>
+    Bool.eqb sent (answered_b out && g) &&
+    (if sent then (osent post =? n) && negb (n =? 0) && row_sotw pre r out (unsend pre post None)
+     else row_sotw pre r out post)
+  | EDProc r g n gen _ _ =>
+    Bool.eqb sent (answered_b out && g) &&
+    (if sent then
+       (osent post =? n) &&
+       (if should_set_watched (d_ty r)
+        then has_names post (norm gen) &&
+             row_delta pre r out
+               (unsend pre post (Some (if requires_names_mod (d_ty r) then []
+                                       else spec_delta_names (onames pre) r)))
+        else row_delta pre r out (unsend pre post None))
+     else row_delta pre r out post)
+  end.
+
+Fixpoint erows_hold (st : watched) (steps : list eobs_step) : bool :=
+  match steps with
+  | [] => true
+  | (e, out, sent, _, touched) :: rest =>
+    let st' := apply_touched st touched in
+    erow_ok (st (eop_ty e)) e out sent (st' (eop_ty e)) && erows_hold st' rest
+  end.
+
 Definition expect_ok (final : list (xds_type * option wr)) (expect : list (xds_type * list N)) : bool :=
   forallb (fun '(t, cs) => nlist_eqb (onames (assoc_wr final t)) cs) expect.
 
@@ -76,6 +174,7 @@ Definition model_ok (c : case) : bool :=
   match c with
   | Seq _ steps universe final _ =>
     seq_ok steps universe final
+  | E2E _ steps universe final _ => eseq_ok steps universe final
   | Table _ t w d r g s =>
     Bool.eqb (is_wildcard t) w && Bool.eqb (negb (is_nil (warming_deps t))) d &&
     Bool.eqb (requires_names_mod t) r && Bool.eqb (is_debug t) g && Bool.eqb (should_set_watched t) s
@@ -88,6 +187,7 @@ Definition model_ok (c : case) : bool :=
 Definition prop_ok (c : case) : bool :=
   match c with
   | Seq _ steps _ final expect => rows_hold empty_watched steps && expect_ok final expect
+  | E2E _ steps _ final expect => erows_hold empty_watched steps && expect_ok final expect
   | Table _ t w d _ _ _ =>
     (* by the xDS spec LDS and CDS are the wildcard types, EDS/RDS/SDS/ECDS are not; an EDS
        subscription must be re-answered after CDS *)
